@@ -101,6 +101,24 @@ def main():
     os.makedirs(os.path.join(REPLAYS, PROP), exist_ok=True)
     try:
         binary = build_native("header_driver")
+        # ---- stage 0 (not solver-decided; a guard that does not depend on the extractor): candidate number spellings through the real parser
+        BATTERY = ["0", "-0", "7", "-5", "+1", "+0", "-", "+", "1_000", "1_", "_1", "1__0", "-1_0", "0x10", "0xFF", "0x", "0X1f", "0b1", "0o7", "007", "00", "-007", "1e3", "1.5", "1.", ".5",
+                   "9" * 19, "9" * 20, "9" * 39, "9" * 40, "9" * 80, "-" + "9" * 80, str(2 ** 63), str(-2 ** 63 - 1), str(-2 ** 63), str(2 ** 64), str(2 ** 127), str(2 ** 128), str(-2 ** 127 - 1),
+                   "1_000_000_000_000_000_000_000", "+9223372036854775808", "+" + "9" * 40, "0x7fffffffffffffff", "0xffffffffffffffffff", "0x_", "1_" * 30 + "1", "-+1", "+-1", "--1", "1-", "1+"]
+        for lit, res in zip(BATTERY, native_parse(binary, BATTERY)):
+            if res == "panic":
+                rp = os.path.join(REPLAYS, PROP, "number_battery")
+                os.makedirs(rp, exist_ok=True)
+                with open(os.path.join(rp, "input.hex"), "w") as f:
+                    f.write(literal_text(lit).encode().hex() + "\n")
+                with open(os.path.join(rp, "REPLAY.md"), "w") as f:
+                    f.write("Property C07 (native guard): parse_iso_literal panics on the literal\n%s\nRun: bash %s/replay.sh (exit 1 = the parser panics)\n" % (literal_text(lit), rp))
+                with open(os.path.join(rp, "replay.sh"), "w") as f:
+                    f.write("#!/bin/bash\n%s '%s' < %s/input.hex && exit 0 || exit 1\n" % (binary, PLUGIN_RE.replace("'", "'\\''"), rp))
+                violations.append(("native guard: parse_iso_literal panics on `bar(a: %s)`" % lit, rp))
+                samples.append({"literal": lit, "native": res, "stage": "number battery"})
+                break
+        samples.append({"native_guard_number_spellings": len(BATTERY)})
         X = extract()
         S = z3.StringVal
         digits = z3.Union(z3.Range("0", "0"), z3.Concat(z3.Range("1", "9"), z3.Star(z3.Range("0", "9"))))
